@@ -449,9 +449,14 @@ static HAWK_INLINE hawk_ooi_t tio_read_uchars (
 		/* illegal sequence */
 		if (tio->flags & HAWK_TIO_IGNOREECERR)
 		{
-		ignore_illseq:
-			tio->inbuf_cur++; /* skip one byte */
-			buf[wlen++] = '?';
+			/* if the caller's buffer is already full, leave the offending
+			 * byte in the input buffer. the next call replaces it. */
+			if (wlen < bufsize)
+			{
+			ignore_illseq:
+				tio->inbuf_cur++; /* skip one byte */
+				buf[wlen++] = '?';
+			}
 		}
 		else if (wlen <= 0)
 		{
